@@ -61,7 +61,7 @@ CLAIMS = {
             "with the counterexamples proved and reported as known findings; guard and cast compared with the real Deserialize impls on every power of two +-2 ulp, bounds, halves, infinities and random doubles for the ten types.",
             TB, "Lean 4 theorems (case analysis over exact values, decide +kernel for the bounds) + differential correspondence", "§4 C10"),
     "C11": ("Theorems: the inline field of a handle is min(n, 2^14-1) for every n on both widths (from the C06 round trip); the api-level length accessor returns the node's true length for every size "
-            "(inline below the limit, length query exactly when the field is saturated); the length query answers -1 for values without a length; an index is refused as out of bounds iff it is >= the true length. "
+            "(inline below the limit, length query exactly when the field is saturated); the length query answers -1 for values without a length; an index is refused as out of bounds iff it is >= the true length. C11_true_length_every_path: in every reachable context over an input that decodes to a document d, for every valid handle (root, nested, by name, by index, key) the length query returns the length of the decoded sub-document (string bytes / elements / pairs, any size) and exactly the indices below it can be read. "
             "Strings/arrays/objects of sizes 0..40, 2^14-3..2^14+2, 65535, 65536, 70000 reached as root, nested, by name, by index and as key-at-index compared with the real provider and api accessors.",
             TB, "Lean 4 theorems over the NaN-box and reader models + differential correspondence at boundary sizes", "§4 C11"),
     "C12": ("Theorem C12_refines (refinement to an append-only list of byte strings): after interning any sequence of strings the ids are 0,1,2,… and the k-th id resolves to the k-th string — however many and however large the later ones are; "
